@@ -39,7 +39,7 @@ func (in *Interp) stdIntrinsic2(fn *ssa.Function, name string, args []Value) (Va
 		half := mk("/", SortReal, "", nil, RealC(1), RealC(2))
 		pos := realFloor(mk("+", SortReal, "", nil, r, half))
 		neg := realCeil(mk("-", SortReal, "", nil, r, half))
-		return ToReal(Ite(mk("<=", 0, "", nil, RealC(0), r), pos, neg)), true
+		return ToReal(Ite(realNonNeg(r), pos, neg)), true
 	case "math.Ceil", "math.Floor":
 		r := bitsToReal(args[0].(*Term))
 		if r == nil {
@@ -301,9 +301,63 @@ func (in *Interp) floatBinop(op token.Token, x, y *Term, t types.Type) Value {
 	return nil
 }
 
+// ratAffine recognises a real term of the form a*to_real(x) + b with rational
+// constants a, b and an Int term x.
+func ratAffine(t *Term) (x *Term, a, b *big.Rat, ok bool) {
+	if t == nil || t.w != SortReal {
+		return nil, nil, nil, false
+	}
+	if r, isC := ratOf(t); isC {
+		return nil, new(big.Rat), r, true
+	}
+	switch t.op {
+	case "to_real":
+		return t.args[0], big.NewRat(1, 1), new(big.Rat), true
+	case "+", "-":
+		x1, a1, b1, ok1 := ratAffine(t.args[0])
+		x2, a2, b2, ok2 := ratAffine(t.args[1])
+		if !ok1 || !ok2 || (x1 != nil && x2 != nil && x1 != x2) {
+			return nil, nil, nil, false
+		}
+		if t.op == "-" {
+			a2, b2 = new(big.Rat).Neg(a2), new(big.Rat).Neg(b2)
+		}
+		if x1 == nil {
+			x1 = x2
+		}
+		return x1, new(big.Rat).Add(a1, a2), new(big.Rat).Add(b1, b2), true
+	case "*":
+		for k := 0; k < 2; k++ {
+			if c, isC := ratOf(t.args[k]); isC {
+				if x1, a1, b1, ok1 := ratAffine(t.args[1-k]); ok1 {
+					return x1, new(big.Rat).Mul(a1, c), new(big.Rat).Mul(b1, c), true
+				}
+			}
+		}
+	case "/":
+		if c, isC := ratOf(t.args[1]); isC && c.Sign() != 0 {
+			if x1, a1, b1, ok1 := ratAffine(t.args[0]); ok1 {
+				return x1, new(big.Rat).Quo(a1, c), new(big.Rat).Quo(b1, c), true
+			}
+		}
+	}
+	return nil, nil, nil, false
+}
+
+// affineFloor: floor(a*x + b) as an integer division, (x*p + c) div q with q > 0
+func affineFloor(x *Term, a, b *big.Rat) *Term {
+	q := new(big.Int).Mul(a.Denom(), b.Denom())
+	p := new(big.Int).Mul(a.Num(), b.Denom())
+	c := new(big.Int).Mul(b.Num(), a.Denom())
+	return IArith("div", IArith("+", IArith("*", x, IntBig(p)), IntBig(c)), IntBig(q))
+}
+
 func realFloor(x *Term) *Term { // SMT to_int is floor
 	if r, ok := ratOf(x); ok {
 		return IntBig(ratFloor(r))
+	}
+	if v, a, b, ok := ratAffine(x); ok && v != nil {
+		return affineFloor(v, a, b)
 	}
 	return ToInt(x)
 }
@@ -311,7 +365,23 @@ func realCeil(x *Term) *Term {
 	if r, ok := ratOf(x); ok {
 		return IntBig(new(big.Int).Neg(ratFloor(new(big.Rat).Neg(r))))
 	}
+	if v, a, b, ok := ratAffine(x); ok && v != nil {
+		return IArith("-", IntC(0), affineFloor(v, new(big.Rat).Neg(a), new(big.Rat).Neg(b)))
+	}
 	return IArith("-", IntC(0), ToInt(mk("-", SortReal, "", nil, RealC(0), x)))
+}
+
+// realNonNeg: 0 <= r, decided on the integer side where r is affine in an Int term
+func realNonNeg(r *Term) *Term {
+	if v, a, b, ok := ratAffine(r); ok && v != nil && a.Sign() != 0 {
+		// a*x + b >= 0  <=>  x >= -b/a (a > 0)  or  x <= -b/a (a < 0)
+		bound := new(big.Rat).Quo(new(big.Rat).Neg(b), a)
+		if a.Sign() > 0 {
+			return ICmp("<=", IntBig(new(big.Int).Neg(ratFloor(new(big.Rat).Neg(bound)))), v)
+		}
+		return ICmp("<=", v, IntBig(ratFloor(bound)))
+	}
+	return mk("<=", 0, "", nil, RealC(0), r)
 }
 
 func (in *Interp) floatConvert(t *Term, from, to types.Type) Value {
@@ -339,7 +409,7 @@ func (in *Interp) floatConvert(t *Term, from, to types.Type) Value {
 			in.unsupported("float -> int conversion of an opaque bit pattern")
 		}
 		// truncation toward zero
-		tr := Ite(mk("<=", 0, "", nil, RealC(0), r), realFloor(r), realCeil(r))
+		tr := Ite(realNonNeg(r), realFloor(r), realCeil(r))
 		w := width(to)
 		if w == SortInt {
 			return tr
